@@ -300,6 +300,8 @@ pub struct Config {
     pub scripts_dead_handle: bool,
     /// run the closing probe after every transition and compare it between merged histories
     pub probe: bool,
+    /// distinguish states by which objects ever had a recorded adoption (C14)
+    pub past: bool,
     /// heap layouts (indices into layout::family)
     pub layouts: Vec<u16>,
     /// stop after this BFS depth (0 = none; a capped run is reported as not exhaustive)
@@ -329,6 +331,7 @@ impl Config {
             scripts_upgrade_own: false,
             scripts_dead_handle: false,
             probe: false,
+            past: false,
             layouts: vec![0],
             max_depth: 0,
         }
@@ -365,6 +368,7 @@ impl Config {
                 "sown" => c.scripts_upgrade_own = b()?,
                 "sdead" => c.scripts_dead_handle = b()?,
                 "probe" => c.probe = b()?,
+                "past" => c.past = b()?,
                 "depth" => c.max_depth = v.parse().map_err(|_| "bad depth")?,
                 "layouts" => {
                     c.layouts = v
@@ -383,12 +387,12 @@ impl Config {
 
     pub fn to_spec(&self) -> String {
         format!(
-            "n={},e={},m={},x={},w={},ws={},s={},elide={},plain={},sameref={},late={},bare={},keep={},weak={},consume={},sapi={},spanic={},sown={},sdead={},probe={},depth={},layouts={}",
+            "n={},e={},m={},x={},w={},ws={},s={},elide={},plain={},sameref={},late={},bare={},keep={},weak={},consume={},sapi={},spanic={},sown={},sdead={},probe={},past={},depth={},layouts={}",
             self.n, self.e, self.m, self.x, self.w, self.ws, self.s, self.elide,
             self.plain_edges as u8, self.sameref as u8, self.late_adopt as u8, self.bare_unadopt as u8,
             self.keep_take as u8, self.weak_ops as u8, self.consuming_ops as u8, self.scripts_api as u8,
             self.scripts_panic as u8, self.scripts_upgrade_own as u8, self.scripts_dead_handle as u8,
-            self.probe as u8, self.max_depth,
+            self.probe as u8, self.past as u8, self.max_depth,
             self.layouts.iter().map(|l| l.to_string()).collect::<Vec<_>>().join("+")
         )
     }
